@@ -83,6 +83,20 @@ func init() {
 				Old: "\tc.subs = append(c.subs, func(ctx context.Context, duty core.Duty, set core.ParSignedDataSet) error {", New: "\tc.subs = append(c.subs, fn)\n\t_ = (func(ctx context.Context, duty core.Duty, set core.ParSignedDataSet) error {"},
 			{ID: "C18-X3-validatorapi-wrapper-noclone", File: "core/validatorapi/validatorapi.go", Expect: "X3|core/validatorapi.Component.Subscribe",
 				Old: "\t\treturn fn(ctx, duty, clone)", New: "\t\t_ = clone\n\n\t\treturn fn(ctx, duty, set)"},
+			// ---- added with the hardened engine (captured receivers, reaching stores, iteration scope, wrapper classes)
+			{ID: "C18-X1-dutydb-aggatt-uncloned", File: "core/dutydb/memory.go", Expect: "X1|core/dutydb.MemDB.storeAggAttestationUnsafe",
+				Old: "\taggAtt, ok := cloned.(core.VersionedAggregatedAttestation)", New: "\t_ = cloned\n\taggAtt, ok := unsignedData.(core.VersionedAggregatedAttestation)"},
+			{ID: "C18-X2-dutydb-contrib-stored-pointer", File: "core/dutydb/memory.go", Expect: "X2|core/dutydb.MemDB.AwaitSyncContribution",
+				Old: "\t\treturn &contrib.SyncCommitteeContribution, nil", New: "\t\t_ = contrib\n\n\t\treturn value, nil"},
+			{ID: "C18-X2-scheduler-getdef-clone-overwritten", File: "core/scheduler/scheduler.go", Expect: "X2|core/scheduler.Scheduler.GetDutyDefinition",
+				Old: "\treturn defSet.Clone() // Clone before returning.", New: "\tcloned, err := defSet.Clone()\n\tif err == nil && len(cloned) == len(defSet) {\n\t\tcloned = defSet // identical content\n\t}\n\n\treturn cloned, err"},
+			{ID: "C18-X3-sigagg-clone-once", File: "core/sigagg/sigagg.go", Expect: "X3|core/sigagg.Aggregator.Aggregate",
+				Old: "\tfor _, sub := range a.subs {\n\t\t// Clone before calling each subscriber.\n\t\tcloned, err := output.Clone()\n\t\tif err != nil {\n\t\t\treturn err\n\t\t}\n\n",
+				New: "\tcloned, err := output.Clone()\n\tif err != nil {\n\t\treturn err\n\t}\n\n\tfor _, sub := range a.subs {\n"},
+			{ID: "C18-X3-parsigdb-internal-clone-cached", File: "core/parsigdb/memory.go", Expect: "X3|core/parsigdb.MemDB.StoreInternal",
+				Old:  "\t\tclone, err := signedSet.Clone() // Clone before calling each subscriber.\n\t\tif err != nil {\n\t\t\treturn err\n\t\t}\n\n\t\tif err = sub(ctx, duty, clone); err != nil {",
+				New:  "\t\tif clone == nil {\n\t\t\tc, err := signedSet.Clone()\n\t\t\tif err != nil {\n\t\t\t\treturn err\n\t\t\t}\n\n\t\t\tclone = c\n\t\t}\n\n\t\tif err := sub(ctx, duty, clone); err != nil {",
+				More: [][2]string{{"\tfor _, sub := range db.internalSubs {", "\tvar clone core.ParSignedDataSet\n\n\tfor _, sub := range db.internalSubs {"}}},
 		},
 	})
 }
@@ -183,9 +197,10 @@ func c18(c *rt.Ctx) {
 
 	// -----------------------------------------------------------------------------------------
 	// X1: store side. Sinks: MapUpdate / Store whose target memory belongs to the receiver's state.
-	c.Rule("X1", 32, func() {
+	c.Rule("X1", 26, func() {
 		e := engine()
 		var agg c18Agg
+		written := map[string]bool{}
 		for _, rel := range c18StorePkgs {
 			for _, fn := range an.PkgFuncs(c.SSAPkg(rel)) {
 				for _, in := range an.Instrs(fn, false) {
@@ -220,6 +235,7 @@ func c18(c *rt.Ctx) {
 						continue // local memory (constructors, literals) or not this component's state
 					}
 					g := agg.get(an.FuncName(fn)+" writes "+field, posOf(in))
+					written[field] = true
 					for _, v := range vals {
 						os := e.Origins(v)
 						_, par, unk := an.C18Summary(os)
@@ -241,6 +257,13 @@ func c18(c *rt.Ctx) {
 			}
 		}
 		agg.flush(c)
+		// vacuity is keyed by the stores' data fields, not by how many functions write them: splitting or merging
+		// the writing functions changes the number of obligations, never the set of fields that must be covered
+		for _, f := range c18DataFields {
+			if !written[f] {
+				c.Unsure("table "+f, token.NoPos, "no analysed write into this data field of the frozen table (renamed, removed, or written in a way the origin engine does not see)")
+			}
+		}
 	})
 
 	// -----------------------------------------------------------------------------------------
@@ -308,7 +331,7 @@ func c18(c *rt.Ctx) {
 
 	// -----------------------------------------------------------------------------------------
 	// X3: fan-out through slice-of-callback fields.
-	c.Rule("X3", 16, func() {
+	c.Rule("X3", 7, func() {
 		e := engine()
 		type site struct {
 			fn   *ssa.Function
@@ -348,23 +371,34 @@ func c18(c *rt.Ctx) {
 		}
 		// registration wrappers
 		wrapped := map[string]bool{}
+		unknownReg := map[string]string{}
 		var fkeys []string
 		for k := range fields {
 			fkeys = append(fkeys, k)
 		}
 		sort.Strings(fkeys)
 		for _, k := range fkeys {
-			ok, regFn, pos, why := c18WrapperClones(c, e, fields[k], k)
-			wrapped[k] = ok
-			if regFn != nil && (ok || strings.HasPrefix(why, "wrapper")) {
+			status, regFn, pos, why := c18WrapperClones(c, e, fields[k], k)
+			wrapped[k] = status == "clones"
+			switch status {
+			case "clones":
 				// the field is filled with wrappers: their cloning is an obligation of its own
-				c.Check(an.FuncName(regFn)+" registers cloning wrapper in "+k, pos, ok, why)
+				c.Good(an.FuncName(regFn)+" registers cloning wrapper in "+k, pos, why)
+			case "bad":
+				c.Bad(an.FuncName(regFn)+" registers cloning wrapper in "+k, pos, why)
+			case "unknown":
+				unknownReg[k] = why
+			}
+		}
+		for _, f := range c18CallbackFields {
+			if _, ok := fields[f]; !ok {
+				c.Unsure("table "+f, token.NoPos, "no call through this callback field of the frozen table found (renamed, removed, or called in a way this rule does not see)")
 			}
 		}
 		var agg c18Agg
 		for _, s := range sites {
 			cc := s.call.Common()
-			loop := an.InnermostLoop(s.fn, s.call.Block())
+			inLoop, perIter := c18PerIteration(s.call)
 			for i, a := range cc.Args {
 				if !an.C18Mutable(a.Type()) {
 					continue
@@ -374,17 +408,25 @@ func c18(c *rt.Ctx) {
 					g.good = "every function registered in the field is a wrapper that clones per call"
 					continue
 				}
+				bad := func(pos token.Pos, msg string) {
+					if why := unknownReg[s.key]; why != "" {
+						// what is registered may or may not clone: the call site alone decides nothing definite
+						g.setUnsure(pos, "cannot tell whether the functions registered in the field clone their arguments ("+why+"); the call site alone: "+msg)
+						return
+					}
+					g.setBad(pos, msg)
+				}
 				os := e.Origins(a)
 				st, par, unk := an.C18Summary(os)
 				switch {
 				case st != nil:
-					g.setBad(s.call.Pos(), "subscriber is handed memory of the component's state ("+st.What+") without Clone(). origins: "+c18Describe(os))
+					bad(s.call.Pos(), "subscriber is handed memory of the component's state ("+st.What+") without Clone(). origins: "+c18Describe(os))
 					continue
 				case par != nil:
-					g.setBad(s.call.Pos(), "subscriber is handed the caller's own object ("+par.What+") without Clone(). origins: "+c18Describe(os))
+					bad(s.call.Pos(), "subscriber is handed the caller's own object ("+par.What+") without Clone(). origins: "+c18Describe(os))
 					continue
 				}
-				if loop == nil {
+				if !inLoop {
 					g.setUnsure(s.call.Pos(), "call through a callback slice outside a loop")
 					continue
 				}
@@ -393,12 +435,15 @@ func c18(c *rt.Ctx) {
 					if o.Const || o.Kind != an.C18Fresh {
 						continue
 					}
-					if o.Root == nil || o.Root.Parent() != s.fn || !loop.Body[o.Root.Block()] {
+					if o.Root == nil || !perIter(o.Root) {
 						shared = o.What
 					}
 				}
+				if shared == "" && c18CarriedOver(a, s.call) {
+					shared = "an object kept from an earlier iteration"
+				}
 				if shared != "" {
-					g.setBad(s.call.Pos(), "the same object ("+shared+", made outside the fan-out loop) is handed to every subscriber: one subscriber's mutation is seen by the next. origins: "+c18Describe(os))
+					bad(s.call.Pos(), "the same object ("+shared+", made outside the fan-out loop) is handed to every subscriber: one subscriber's mutation is seen by the next. origins: "+c18Describe(os))
 					continue
 				}
 				if unk != nil {
@@ -412,9 +457,171 @@ func c18(c *rt.Ctx) {
 	})
 }
 
+// the data fields of the stores (what X1 is about) and the callback fields of the fan-outs (X3): frozen tables that
+// replace instance counting as the vacuity guard. A renamed field ends UNDECIDED.
+var c18DataFields = []string{
+	"core/aggsigdb.MemDB.data", "core/aggsigdb.MemDBV2.data",
+	"core/dutydb.MemDB.attDuties", "core/dutydb.MemDB.proDuties", "core/dutydb.MemDB.aggDuties", "core/dutydb.MemDB.contribDuties",
+	"core/parsigdb.MemDB.entries", "core/scheduler.Scheduler.duties",
+}
+
+var c18CallbackFields = []string{
+	"core/fetcher.Fetcher.subs", "core/parsigdb.MemDB.internalSubs", "core/parsigdb.MemDB.threshSubs",
+	"core/scheduler.Scheduler.dutySubs", "core/sigagg.Aggregator.subs", "core/validatorapi.Component.subs",
+}
+
+// c18ResolveCaptured is an.Resolve that also looks through variables captured by a function literal (a load of a free
+// variable is the value the enclosing function stored in the captured variable, when that is a single assignment).
+func c18ResolveCaptured(v ssa.Value) ssa.Value {
+	for i := 0; i < 8; i++ {
+		v = an.Resolve(v)
+		ld, ok := v.(*ssa.UnOp)
+		if !ok || ld.Op != token.MUL {
+			return v
+		}
+		fv, ok := ld.X.(*ssa.FreeVar)
+		if !ok {
+			return v
+		}
+		fn := fv.Parent()
+		idx := -1
+		for j, f := range fn.FreeVars {
+			if f == fv {
+				idx = j
+			}
+		}
+		if idx < 0 || fn.Parent() == nil {
+			return v
+		}
+		var src ssa.Value
+		n := 0
+		for _, in := range an.Instrs(fn.Parent(), false) {
+			if mc, ok := in.(*ssa.MakeClosure); ok && mc.Fn == ssa.Value(fn) && idx < len(mc.Bindings) {
+				n++
+				if al, ok := mc.Bindings[idx].(*ssa.Alloc); ok {
+					src = an.UniqueStore(al)
+				}
+			}
+		}
+		if n != 1 || src == nil {
+			return v
+		}
+		v = src
+	}
+	return v
+}
+
+// c18PerIteration finds the loop in whose every iteration instruction `at` runs: the innermost loop of its function, or,
+// when `at` sits in a function literal that is only ever called directly at one place, the loop around that place (and so
+// on outwards). perIter reports whether memory made by instruction root is made anew in each iteration of that loop.
+func c18PerIteration(at ssa.Instruction) (inLoop bool, perIter func(root ssa.Instruction) bool) {
+	inner := map[*ssa.Function]bool{} // literals whose whole body runs once per iteration
+	fn, b := at.Parent(), at.Block()
+	for i := 0; i < 6; i++ {
+		if l := an.InnermostLoop(fn, b); l != nil {
+			return true, func(root ssa.Instruction) bool {
+				if root == nil {
+					return false
+				}
+				if inner[root.Parent()] {
+					return true
+				}
+				return root.Parent() == fn && l.Body[root.Block()]
+			}
+		}
+		parent := fn.Parent()
+		if parent == nil {
+			break
+		}
+		var site ssa.Instruction
+		n := 0
+		for _, in := range an.Instrs(parent, false) {
+			mc, ok := in.(*ssa.MakeClosure)
+			if !ok || mc.Fn != ssa.Value(fn) {
+				// a literal without captured variables is used as a plain function value
+				for _, op := range an.Operands(in) {
+					if op == ssa.Value(fn) {
+						n++
+						if call, ok := in.(*ssa.Call); ok && call.Call.Value == op {
+							site = call
+						} else {
+							n += 2
+						}
+					}
+				}
+				continue
+			}
+			for _, r := range *mc.Referrers() {
+				n++
+				if call, ok := r.(*ssa.Call); ok && call.Call.Value == ssa.Value(mc) {
+					site = call
+				} else {
+					n += 2 // escapes, deferred or started as a goroutine: not "once per iteration of the caller's loop"
+				}
+			}
+		}
+		if n != 1 || site == nil {
+			break
+		}
+		inner[fn] = true
+		fn, b = parent, site.Block()
+	}
+	return false, nil
+}
+
+// c18CarriedOver: value v, used at instruction at inside a loop, can be a value of an earlier iteration of that loop: its
+// definition chain passes a phi in the header of a loop around at whose back edge carries reference-typed data (a clone
+// made once and cached in a variable declared outside the loop).
+func c18CarriedOver(v ssa.Value, at ssa.Instruction) bool {
+	loops := an.LoopsContaining(at.Parent(), at.Block())
+	if len(loops) == 0 {
+		return false
+	}
+	seen := map[ssa.Value]bool{}
+	var walk func(v ssa.Value, d int) bool
+	walk = func(v ssa.Value, d int) bool {
+		if v == nil || seen[v] || d > 12 {
+			return false
+		}
+		seen[v] = true
+		switch x := v.(type) {
+		case *ssa.Phi:
+			for _, l := range loops {
+				if x.Block() != l.Header {
+					continue
+				}
+				for i, e := range x.Edges {
+					if l.Body[x.Block().Preds[i]] && !an.IsNilConst(e) && an.C18Mutable(e.Type()) {
+						return true
+					}
+				}
+			}
+			for _, e := range x.Edges {
+				if walk(e, d+1) {
+					return true
+				}
+			}
+		case *ssa.ChangeType:
+			return walk(x.X, d+1)
+		case *ssa.MakeInterface:
+			return walk(x.X, d+1)
+		case *ssa.ChangeInterface:
+			return walk(x.X, d+1)
+		case *ssa.TypeAssert:
+			return walk(x.X, d+1)
+		case *ssa.Extract:
+			if ta, ok := x.Tuple.(*ssa.TypeAssert); ok {
+				return walk(ta.X, d+1)
+			}
+		}
+		return false
+	}
+	return walk(v, 0)
+}
+
 // c18CallbackField: v is an element of a slice-of-functions struct field; returns the field key.
 func c18CallbackField(v ssa.Value) (string, bool) {
-	v = an.Resolve(v)
+	v = c18ResolveCaptured(v)
 	var coll ssa.Value
 	switch x := v.(type) {
 	case *ssa.UnOp:
@@ -427,6 +634,7 @@ func c18CallbackField(v ssa.Value) (string, bool) {
 	if coll == nil {
 		return "", false
 	}
+	coll = c18ResolveCaptured(coll) // `subs := s.dutySubs` hoisted in front of a function literal that ranges over it
 	sl, ok := coll.Type().Underlying().(*types.Slice)
 	if !ok {
 		return "", false
@@ -438,11 +646,52 @@ func c18CallbackField(v ssa.Value) (string, bool) {
 	return k, ok
 }
 
-// c18WrapperClones decides whether every function appended to the callback field is a function
-// literal that calls the captured callback with per-call clones of its reference-typed arguments.
-func c18WrapperClones(c *rt.Ctx, e *an.C18Engine, rel, key string) (ok bool, regFn *ssa.Function, pos token.Pos, why string) {
+// c18WrapperClones classifies what is registered in a callback field: "clones" — every registered function is a
+// function literal (written in place, kept in a local, or returned by an in-package constructor) that calls the captured
+// callback with per-call clones of its reference-typed arguments; "raw" — the caller's callback itself is registered;
+// "bad" — a wrapper that definitely hands on an uncloned / shared argument; "unknown" — anything else.
+func c18WrapperClones(c *rt.Ctx, e *an.C18Engine, rel, key string) (status string, regFn *ssa.Function, pos token.Pos, why string) {
 	n := 0
-	ok = true
+	raws, wraps := 0, 0
+	within := func(fn, lit *ssa.Function) bool {
+		for ; fn != nil; fn = fn.Parent() {
+			if fn == lit {
+				return true
+			}
+		}
+		return false
+	}
+	// literalOf resolves a registered element to the function literal it is (nil: not a literal)
+	var literalOf func(el ssa.Value, d int) (*ssa.Function, bool)
+	literalOf = func(el ssa.Value, d int) (*ssa.Function, bool) {
+		el = c18ResolveCaptured(el)
+		switch x := el.(type) {
+		case *ssa.MakeClosure:
+			lit, _ := x.Fn.(*ssa.Function)
+			return lit, lit != nil
+		case *ssa.Function:
+			return x, x.Parent() != nil
+		case *ssa.Call:
+			// constructor of the wrapper: every return hands back the same literal
+			g := x.Call.StaticCallee()
+			if g == nil || g.Blocks == nil || g.Pkg != x.Parent().Pkg || d > 2 {
+				return nil, false
+			}
+			var lit *ssa.Function
+			for _, r := range an.Returns(g) {
+				if len(r.Results) != 1 {
+					return nil, false
+				}
+				l, ok := literalOf(r.Results[0], d+1)
+				if !ok || (lit != nil && lit != l) {
+					return nil, false
+				}
+				lit = l
+			}
+			return lit, lit != nil
+		}
+		return nil, false
+	}
 	for _, fn := range an.PkgFuncs(c.SSAPkg(rel)) {
 		for _, in := range an.Instrs(fn, false) {
 			st, isSt := in.(*ssa.Store)
@@ -462,21 +711,20 @@ func c18WrapperClones(c *rt.Ctx, e *an.C18Engine, rel, key string) (ok bool, reg
 			}
 			elems := appendedElems(st.Val)
 			if len(elems) == 0 {
-				return false, regFn, posOf(st), "field is assigned something other than append(field, f)"
+				return "unknown", regFn, posOf(st), "field is assigned something other than append(field, f)"
 			}
 			for _, el := range elems {
-				var lit *ssa.Function
-				switch x := el.(type) {
-				case *ssa.MakeClosure:
-					lit, _ = x.Fn.(*ssa.Function)
-				case *ssa.Function:
-					lit = x
+				if _, isParam := an.Resolve(el).(*ssa.Parameter); isParam {
+					raws++
+					continue
 				}
-				if lit == nil || lit.Parent() == nil {
-					return false, fn, posOf(st), "registered function is the caller's callback itself (no wrapper)"
+				lit, ok := literalOf(el, 0)
+				if !ok {
+					return "unknown", fn, posOf(st), "cannot resolve the function registered in the field"
 				}
+				wraps++
 				calls := 0
-				for _, li := range an.Instrs(lit, false) {
+				for _, li := range an.Instrs(lit, true) {
 					ci, isCall := li.(ssa.CallInstruction)
 					if !isCall || ci.Common().IsInvoke() || ci.Common().StaticCallee() != nil {
 						continue
@@ -495,24 +743,32 @@ func c18WrapperClones(c *rt.Ctx, e *an.C18Engine, rel, key string) (ok bool, reg
 						}
 						os := e.Origins(a)
 						stt, par, unk := an.C18Summary(os)
-						if stt != nil || par != nil || unk != nil {
-							return false, fn, ci.Pos(), fmt.Sprintf("wrapper passes argument #%d to the subscriber without cloning it (%s)", i, c18Describe(os))
+						if stt != nil || par != nil {
+							return "bad", fn, ci.Pos(), fmt.Sprintf("wrapper passes argument #%d to the subscriber without cloning it (%s)", i, c18Describe(os))
+						}
+						if unk != nil {
+							return "unknown", fn, ci.Pos(), fmt.Sprintf("cannot decide the origin of argument #%d the wrapper passes on (%s)", i, unk.What)
 						}
 						for _, o := range os {
-							if !o.Const && (o.Root == nil || o.Root.Parent() != lit) {
-								return false, fn, ci.Pos(), fmt.Sprintf("wrapper passes argument #%d that is not cloned per call (%s)", i, o.What)
+							if !o.Const && (o.Root == nil || !within(o.Root.Parent(), lit)) {
+								return "bad", fn, ci.Pos(), fmt.Sprintf("wrapper passes argument #%d that is not cloned per call (%s)", i, o.What)
 							}
 						}
 					}
 				}
 				if calls == 0 {
-					return false, fn, posOf(st), "wrapper never calls the captured subscriber"
+					return "unknown", fn, posOf(st), "cannot find the call of the captured subscriber in the registered function"
 				}
 			}
 		}
 	}
-	if n == 0 {
-		return false, nil, token.NoPos, "no registration found"
+	switch {
+	case n == 0:
+		return "unknown", nil, token.NoPos, "no registration found"
+	case wraps > 0 && raws == 0:
+		return "clones", regFn, pos, "wrapper clones"
+	case wraps == 0:
+		return "raw", regFn, pos, "the caller's callback itself is registered"
 	}
-	return ok, regFn, pos, "wrapper clones"
+	return "raw", regFn, pos, "some registrations wrap, others register the caller's callback itself"
 }
